@@ -538,8 +538,75 @@ def _si(unit):
     return _SI[unit]
 
 
+BLANK_PAIRS = [('m s', 'ms'), ('W/(m K)', 'W/(mK)'), ('k g', 'kg'),
+               ('h a', 'ha'), ('m in', 'min'), ('c d', 'cd'), ('P a', 'Pa'),
+               ('m mol', 'mmol'), ('f t', 'ft'), ('d a', 'da'),
+               ('N m', 'Nm'), ('m Pa', 'mPa'), ('k cal/mol', 'kcal/mol')]
+
+
+def check_blank_targets(ctx, order):
+    """Conversion targets that differ only in blanks are DIFFERENT units
+    (a blank multiplies): converting to one, then to the other, in one
+    process, in both orders."""
+    from pgradd.Units import eval_qty
+    from vmon.refs import units as U
+    from vmon.props.c10 import parse_own
+    for a, b in BLANK_PAIRS:
+        for first, second in ((a, b), (b, a))[::order]:
+            for text in (first, second):
+                try:
+                    ref = U.evaluate(parse_own(text))
+                except Exception:
+                    continue          # not a unit at all: C10's business
+                src = observe(eval_qty, '3 ' + first)
+                if 'exc' in src:
+                    continue
+                try:
+                    rs = U.evaluate(parse_own(first))
+                except Exception:
+                    continue
+                same = tuple(rs.v) == tuple(ref.v)
+                for name in ('in_units', 'has_units'):
+                    o = observe(getattr(src['ok'], name), text) if hasattr(
+                        src['ok'], name) else None
+                    if o is None:
+                        continue
+                    ctx.evals()
+                    case = {'quantity': '3 ' + first, 'target': text,
+                            'method': name}
+                    if name == 'has_units':
+                        if 'exc' in o or bool(o['ok']) != same:
+                            ctx.violation('has_units(text) disagrees with '
+                                          'the dimensions of the text', case,
+                                          {'got': repr(o.get('ok', o.get(
+                                              'exc'))), 'want': same})
+                            return
+                    elif same:
+                        want = 3 * float(rs.mag) / float(ref.mag)
+                        if 'exc' in o or abs(float(o['ok']) - want) > 1e-9 * \
+                                abs(want):
+                            ctx.violation('in_units(text) gives another '
+                                          'value than the text denotes', case,
+                                          {'got': repr(o.get('ok', o.get(
+                                              'exc'))), 'want': want})
+                            return
+                    elif 'ok' in o:
+                        ctx.violation('in_units(text) converted to a unit of '
+                                      'another dimension', case,
+                                      {'got': repr(o['ok'])})
+                        return
+                    elif o['exc'] != 'UnitsError':
+                        ctx.violation('in_units(text) raised %s for an '
+                                      'incompatible target' % o['exc'], case,
+                                      {'msg': o['msg']})
+                        return
+    ctx.count('blank_differing_targets_checked')
+
+
 def run_shard(ctx):
     i = 0
+    if ctx.shard % 4 == 0:
+        check_blank_targets(ctx, 1 if ctx.shard % 8 == 0 else -1)
     reps = 2 if ctx.tier == 'quick' else 8
     for rep in range(reps):
         for da, db in itertools.product(DIMS, DIMS):
